@@ -279,7 +279,7 @@ Definition run_input (f : features) (now : Z) (s : state) (i : input) : outcome 
                 else Done (touch_tx f s t (fun x => tx_with x (mmerge (t_meta x) md) now (t_rev x))) (PSetMeta (TTx id) md)
     end
   | ISetMeta (TAcc a) md =>
-    Done (with_accounts s (upsert_account (f_acc_hist f) now (s_accounts s, s_ahist s) a md None None None)) (PSetMeta (TAcc a) md)
+    Done (with_accounts s (upsert_account (f_acc_hist f) now (s_accounts s, s_ahist s) a md (Some now) None None)) (PSetMeta (TAcc a) md)
   | IDelMeta (TTx id) k =>
     match find_tx (s_txs s) id with
     | None => Failed s ENotFound
